@@ -22,6 +22,7 @@ import os
 import random
 import re
 import subprocess
+import time
 import zlib
 
 from . import core
@@ -832,7 +833,7 @@ def run_fuzz(ctx, sample):
             with open(os.path.join(seeddir, 's%06d' % n), 'wb') as f:
                 f.write(b)
             n += 1
-    runs = ctx.n(20000, 4000000)
+    runs = ctx.n(20000, 2500000)
     res = core.tmap(_fuzz_one, [(exe, ctx.tmp, i, runs, seeddir) for i in range(core.NCPU)])
     ctx.count('libfuzzer_seed_inputs', n)
     ctx.count('libfuzzer_executions', sum(r[0] for r in res))
@@ -881,11 +882,21 @@ def run_valgrind(ctx, sample):
 
 # ---------------------------------------------------------------------------
 def run(ctx):
+    t0 = time.time()
+    phases = ctx.cov.setdefault('phase_wall_s', {})
+
+    def lap(name):
+        nonlocal t0
+        phases[name] = round(time.time() - t0, 1)
+        t0 = time.time()
+
     exe = build(ctx)
     records = make_records(ctx, exe)
+    lap('build')
     n = core.NCPU
     res = core.pmap(_shard, [(exe, ctx.tmp, ctx.seed, ctx.tier, i, n, records) for i in range(n)])
     core.merge(ctx, res)
+    lap('main_pass')
     # the quick-size corpus once more through an -O0 build of library + driver
     exe0 = build(ctx, '-O0')
     res0 = core.pmap(_shard, [(exe0, ctx.tmp, ctx.seed, 'quick', i, n, records) for i in range(n)])
@@ -893,6 +904,7 @@ def run(ctx):
     for r in res0:
         r['stats'] = {}         # path counters describe the main pass only
     core.merge(ctx, res0)
+    lap('O0_pass')
     byop = {}
     for r in res:
         for s in r['samples']:
@@ -912,8 +924,11 @@ def run(ctx):
             if k % 3 == 0:
                 sample += [c['line'] for c in cs[::7]]
             vsample += [c['line'] for c in cs[k % 5::5]]
+        lap('sampling')
         run_fuzz(ctx, sample)
+        lap('libfuzzer')
         run_valgrind(ctx, vsample)
+        lap('valgrind')
     ctx.cov['rule'] = (
         'cases = (parser, input bytes) generated by Python: every prefix of generated valid JSON objects '
         '(nesting <= 6, escapes, \\u, whitespace everywhere) and of hand-written broken documents, byte mutations; '
